@@ -582,3 +582,34 @@ def field_cmp(body, rv):
 
     a, b = side(rv["a"]), side(rv["b"])
     return (rv["op"], a[0], a[1], b[0], b[1])
+
+
+def copy_chain_locals(body, op, depth=0):
+    """locals whose *current value* an operand copies, following plain copies/moves and
+    tuple/struct field round-trips (stops at locals that are mutably borrowed or multiply
+    defined, which is exactly what makes it usable for flags written through a closure)"""
+    pl = op_place(op) if ("c" in op or "m" in op) else (op if "l" in op else None)
+    if pl is None or depth > 12:
+        return set()
+    l = pl["l"]
+    proj = pl["p"]
+    out = set()
+    if not proj:
+        out.add(l)
+    if l in body.mut_borrowed():
+        return out
+    defs = body.defs().get(l, [])
+    if len(defs) != 1 or defs[0][0] != "assign":
+        return out
+    rv = defs[0][3]["rv"]
+    if rv["r"] in ("use", "cast") and not proj:
+        out |= copy_chain_locals(body, rv["o"], depth + 1)
+    elif rv["r"] == "use" and proj:
+        src = op_place(rv["o"])
+        if src is not None:
+            out |= copy_chain_locals(body, {"l": src["l"], "p": src["p"] + proj, "t": pl["t"]}, depth + 1)
+    elif rv["r"] == "agg" and len(proj) == 1 and isinstance(proj[0], dict) and "f" in proj[0]:
+        idx = proj[0]["f"]
+        if idx < len(rv["fields"]):
+            out |= copy_chain_locals(body, rv["fields"][idx], depth + 1)
+    return out
